@@ -45,6 +45,15 @@ func Run(r *core.Run) {
 			for j := 0; j < 4; j++ {
 				special = append(special, keys.PublicWithXAtLeastOrder(t, j))
 			}
+			// ... and the points with X = 0, 1, ... 7 where the curve has them (X of zero bytes only, or all zero bytes but the last)
+			for x := int64(0); x < 8; x++ {
+				if k := keys.PublicWithX(t, x); k != nil {
+					special = append(special, k)
+					if x == 0 {
+						r.Class("x-zero-" + t)
+					}
+				}
+			}
 			r.Class("special-keys-" + t)
 		}
 		core.Parallel(count+len(special), func(i int) {
